@@ -366,7 +366,8 @@ class Automata(object):
             return
 
         match = dfa.next_valid_string(term)
-        while match:
+        # (the empty string can be a term, and a match)
+        while match is not None:
             cur.find(match)
             term = cur.text()
             if term is None:
